@@ -440,6 +440,8 @@ func (s *Sim) doImport(e *exported) {
 	s.orc.latest = nil
 	s.orc.lastCCID = 0
 	s.orc.memByCCID = map[uint64]*memView{}
+	s.orc.commitTerm = map[uint64]commitRec{} // the repaired shard starts a new history at the export
+	s.orc.commitSeen = map[int][2]uint64{}
 	s.orc.everRemoved = map[uint64]uint64{}
 	for i := range s.orc.lastMem {
 		s.orc.lastMem[i] = nil
